@@ -337,6 +337,28 @@ func runSequential(c *engine.Ctx, r *engine.Report, name string, depth int) {
 					r.Violate("seq:"+name+":"+opClass(op)+":"+firstWords(v), fmt.Sprintf("[%s] after %v: %s", name, full, v), seqReplay{"seq", name, full})
 					continue
 				}
+				// states are merged by the model's contents; a back end that keeps
+				// hidden history (an id once used, a cached value) would be merged
+				// away with them. So every transition is followed, on a fresh replay,
+				// by each operation on the slot it just touched, whether or not the
+				// state reached was seen before.
+				if f := strings.Split(op, ":"); len(f) >= 3 && (f[0] == "S" || f[0] == "R") {
+					for _, probe := range []string{"S:" + f[1] + ":" + f[2] + ":" + shortVal, "S:" + f[1] + ":" + f[2] + ":" + longVal, "R:" + f[1] + ":" + f[2]} {
+						be2, m2, v2 := replayPath(name, full)
+						if v2 == "" {
+							v2 = apply(be2, m2, probe)
+						}
+						if v2 == "" {
+							v2 = observe(be2, m2)
+						}
+						be2.cleanup()
+						r.Eval(1)
+						if v2 != "" {
+							r.Violate("seq:"+name+":"+opClass(probe)+":after-history:"+firstWords(v2), fmt.Sprintf("[%s] after %v then %s: %s", name, full, probe, v2), seqReplay{"seq", name, append(append([]string{}, full...), probe)})
+							break
+						}
+					}
+				}
 				r.Branch("seq:" + name)
 				if len(path) == 2 && op == ops[4] {
 					r.Sample(map[string]any{"backend": name, "ops": full, "model_after": m.key()})
@@ -715,7 +737,7 @@ func init() {
 		ID:     "C19",
 		Level:  "model_checking",
 		Binary: "sched",
-		Rule: "sequential: BFS over {store short|long value, remove} x 4 types x ids {a,ab} plus nil / typed-nil / unknown-type / empty-id operations on the real inmem, file and store-once back ends (quick depth 3/2, thorough fixpoint/3), state = map model, every transition followed by a full load+list comparison; concurrent: all interleavings (unbounded) of 2 threads x 2 ops and 3 threads x 1 op on the colliding slot ni/a of the in-memory back end under the scheduler, each history checked for linearizability with porcupine; " +
+		Rule: "sequential: BFS over {store short|long value, remove} x 4 types x ids {a,ab} plus nil / typed-nil / unknown-type / empty-id operations on the real inmem, file and store-once back ends (quick depth 3/2, thorough fixpoint/3), state = map model, every transition followed by a full load+list comparison and (states being merged by model contents, which would hide history kept inside a back end) by one further step of each operation on the slot just touched; concurrent: all interleavings (unbounded) of 2 threads x 2 ops and 3 threads x 1 op on the colliding slot ni/a of the in-memory back end under the scheduler, each history checked for linearizability with porcupine; " +
 			"states = canonical model states of the sequential search; distinct_nontrivial = sequential states + distinct per-scenario concurrent outcomes",
 		Assumptions: []string{"scheduling points are the lock operations of the in-memory back end (sequential consistency in between); unsynchronised accesses are the race companion's job (sampling)", "the result of removing an absent entry is not constrained (back ends differ, the property is silent)"},
 		Shards:      func(c *engine.Ctx) int { return 16 },
